@@ -14,7 +14,7 @@ PID = "C16"
 LEAN_MODULES = ["Astm.Proofs.C16", "Astm.State.C16", "Astm.Surface.C16"]
 THEOREMS = [
     "Astm.C16.inv_init", "Astm.C16.inv_step", "Astm.C16.inv_run", "Astm.C16.distinct_files_exact_bytes",
-    "Astm.C16.every_delivery_reaches_a_writer", "Astm.C16.example_same_second",
+    "Astm.C16.every_delivery_reaches_a_writer", "Astm.C16.example_failed_write", "Astm.C16.example_same_second",
     "Astm.C16.anchored_code_keeps_no_other_state", "Astm.C16.anchored_code_keeps_its_signatures",
 ]
 RULE = ("bursts of 1-12 messages (bytes and str payloads incl. non-ASCII text, equal payloads, empty payload) stored with a "
@@ -572,6 +572,29 @@ def write_fault_stream(ctx, r):
                 bad = ("stray", "%d files beyond the stored messages and the one of the failing store" % len(rest))
         if bad:
             wf.fail(dict(case, listing={k: len(v) for k, v in after.items()}), bad[1], "write-fault/" + bad[0])
+        # the archive model with the failing write as an action of its own: the same directory content
+        if ctx.driver_ok and not bad and raised == [fail_at]:
+            leftover = [fn for fn, c in after.items() if fn not in pre and c not in good]
+            part, k_fail = b"", None
+            if len(leftover) == 1:
+                fn = leftover[0]
+                part = after[fn]
+                k_fail = 0 if "_" not in fn.rsplit(":", 1)[-1] else int(fn.rsplit("_", 1)[-1].split(".")[0])
+            if k_fail is not None:
+                toks = ["arch"] + ["F:0.%d:%s" % (0 if "_" not in fn.rsplit(":", 1)[-1] else int(fn.rsplit("_", 1)[-1].split(".")[0]), hexb(c))
+                                   for fn, c in pre.items()]
+                toks += ["M:" + hexb(payload_bytes(m)) for m in msgs]
+                for i in range(len(msgs)):
+                    toks.append("C:%d.0" % i)
+                    if i == fail_at:
+                        toks += ["S:%d" % i] * (k_fail + 1) + ["X:%d:%s" % (i, hexb(part))]
+                    else:
+                        toks += ["S:%d" % i] * (len(msgs) + len(pre) + 3)
+                ml = common.drive([" ".join(toks)])[0]
+                wf.count("compared-with-model")
+                if model_listing(ml) != after:
+                    wf.disagree(case, {k: len(v) for k, v in sorted(after.items())},
+                                {k: len(v) for k, v in sorted(model_listing(ml).items())})
         shutil.rmtree(tmp, ignore_errors=True)
     return wf
 
